@@ -139,6 +139,8 @@ def specs(ctx):
         if "shape" in s:
             s["n"], s["cs"] = s.pop("shape")
         assert s["opts"]["cs_pass"] == "same" or s["cs"] >= s["n"], s     # cs is the effective chunk size
+        if s["source"] == "random":
+            s["opts"]["degrees"] = True                                   # from_random has no such keyword
         s["dseed"] = rng.randrange(10 ** 6)
         out.append(s)
         return s
@@ -182,6 +184,54 @@ def specs(ctx):
             t["patch"] = "centers"
         t["twin_of"] = len(out) - 1
         out.append(t)
+
+    def table_block(workers_list, full):
+        """from_random: the generator draws weights / redshifts from tables; a non-finite value (nan, +inf, -inf) in the
+        weights table, in the redshifts table, in both at different rows; patch centres given / computed (patch_num);
+        fresh path and over a valid catalog with overwrite (refused before any writer exists: the path stays).
+        The first case is the deterministic probe of the repaired defect (DESIGN F24)."""
+        kinds3 = ["nan", "inf", "neginf"]
+        variants = [("w", "z"), ("w",), ("z",)]
+        j = 0
+
+        def case(workers, cols, patch, pre, overwrite, first=False):
+            nonlocal j
+            tables = {}
+            for i, c in enumerate(cols):
+                tables[c] = ["nan", 1] if (first and c == "w") else ["inf", 2] if (first and c == "z") else \
+                    [kinds3[(j + i) % 3], (j + 2 * i + 1) % drv.TABLE_LEN]
+            if len(tables) == 2 and tables["w"][1] == tables["z"][1]:
+                tables["z"][1] = (tables["z"][1] + 1) % drv.TABLE_LEN
+            j += 1
+            # a table that is not faulty is present or absent at random (always present in the probe)
+            kw = dict(RND, weights="w" in cols or first or rng.random() < 0.5, redshifts="z" in cols or first or rng.random() < 0.5)
+            add(kw, shape=(200, 80) if first else rng.choice([(80, 30), (50, 20), (64, 16)]), workers=workers, patch=patch,
+                pre=pre, overwrite=overwrite, fault=dict(kind="gentable", chunk=0, col="w", tables=tables),
+                opts=dict(progress=False if first else rng.random() < 0.3, probe_size=20))
+
+        case(1, ("w", "z"), "centers", "absent", False, first=True)
+        par_ws = [w for w in workers_list if w > 1]
+        if full:
+            for workers in workers_list:
+                for cols in variants:
+                    for patch in ("centers", "num"):
+                        case(workers, cols, patch, "absent", False)
+                        case(workers, cols, patch, rng.choice(OLD_SIZES), True)
+                    case(workers, cols, rng.choice(["centers", "num"]), rng.choice(OLD_SIZES), False)
+                case(workers, rng.choice(variants), "none", "absent", False)
+        else:
+            k = rng.randrange(2)
+            for cols in variants:
+                for workers in (1, rng.choice(par_ws)):
+                    case(workers, cols, ("centers", "num")[k % 2], "absent", False)
+                    k += 1
+                case((1, rng.choice(par_ws))[k % 2], cols, ("centers", "num")[k % 2], rng.choice(OLD_SIZES), True)
+            case(rng.choice(par_ws), rng.choice(variants), "centers", rng.choice(OLD_SIZES), False)
+        # finite tables: exactly the records the generator draws
+        for workers in ((1, rng.choice(par_ws)) if not full else workers_list):
+            add(RND, weights=True, redshifts=True, shape=(80, 30), workers=workers, opts=dict(progress=rng.random() < 0.3))
+        add(RND, weights=True, redshifts=False, shape=(64, 16), workers=rng.choice(workers_list), patch="num",
+            opts=dict(probe_size=20))
 
     def options_block(workers_list, full):
         """every fault kind x chunk position x place x mode with the progress display ON (coordinates in degrees or
@@ -335,6 +385,7 @@ def specs(ctx):
             add(workers=workers, pre=rng.choice(OLD_SIZES), overwrite=False,
                 fault=dict(kind="nan", chunk=2, col=rng.choice(["ra", "w"])))
         options_block([1, par()], full=False)
+        table_block([1, par()], full=False)
         return out
     # ---- thorough: the full grid
     for workers in (1, 2, 3):
@@ -399,6 +450,7 @@ def specs(ctx):
         add(workers=workers, pre="catalog_same", overwrite=True, **rnd)
         add(workers=workers, fault=dict(kind="final_late", chunk=0, col="ra"))
     options_block([1, 2, 3], full=True)
+    table_block([1, 2, 3], full=True)
     return out
 
 
@@ -429,6 +481,8 @@ def scenario(spec):
         fault = ("WriterFinal", 0, "Injected")
     elif k == "genfail":
         fault = ("InReader", f["chunk"], "Injected")
+    elif k == "gentable":
+        early = True               # the generator refuses its tables when it is constructed: nothing has started
     if spec["patch"] == "num" and fault is not None and fault[0] == "InReader" and spec["source"] != "random":
         # the centres are computed from a first pass over the whole reader (create_patch_centers -> get_probe):
         # the reader fault strikes there, before the writer exists
@@ -588,7 +642,8 @@ def expected_of(spec):
     if spec["source"] == "random":
         from yaw.catalog.readers import RandomReader
         import yaw.randoms
-        gen = yaw.randoms.BoxRandoms(*drv.random_window(spec["ncent"]), seed=spec["dseed"])
+        import yaw
+        gen = drv.make_generator(yaw, spec, tolerant=True)
         rows = []
         for chunk in RandomReader(gen, spec["n"], spec["cs"]):
             rows.extend(tuple(float(rec[nm]).hex() for nm in chunk.dtype.names) for rec in chunk)
@@ -731,6 +786,8 @@ def signatures(spec, code, obs_kind, held="HClosed", held_how=""):
         shape = "no-patch-method"
     else:
         shape = "%s/%s" % (spec["pre"], "overwrite" if spec["overwrite"] else "no-overwrite")
+    if spec["fault"]["kind"] == "gentable":
+        shape = "random-table-nonfinite"
     shape += osfx
     sigs = []
     if code & 4:
@@ -746,7 +803,7 @@ def signatures(spec, code, obs_kind, held="HClosed", held_how=""):
             sigs.append(("c09-empty-centre-no-error", "returns a catalog (centres shifted onto the wrong patches) instead of raising"))
         elif plain and spec["overwrite"] and spec["pre"] in ("dir_other", "dir_empty") and obs_kind == "RSame":
             sigs.append(("c09-overwrite-deletes-non-catalog", "returns after deleting a directory that is not a catalog cache"))
-        elif obs_kind == "RSame":
+        elif obs_kind == "RSame" or spec["fault"]["kind"] == "gentable":
             sigs.append(("c09-returned-instead-of-raise:%s:%s" % (shape, mode), "returns a catalog although the call has to raise"))
         else:
             sigs.append(("c09-returned-other-data:%s:%s" % (shape, mode), "returns a catalog that does not hold the input"))
@@ -783,7 +840,10 @@ def describe(spec):
     parts = ["from_%s" % {"df": "dataframe", "frame": "dataframe(frame double)", "hdf5": "file(hdf5)",
                           "random": "random" + ("(generator fails)" if f["kind"] == "genfail" else "")}[spec["source"]],
              "n=%d chunksize=%d max_workers=%d" % (spec["n"], spec["cs"], spec["workers"]), "patch=%s" % spec["patch"]]
-    if f["kind"] != "none":
+    if f["kind"] == "gentable":
+        parts.append("generator tables: " + ", ".join("%s=%s" % ({"w": "weights", "z": "redshifts"}[c], [
+            float(x) for x in v]) for c, v in sorted(drv.random_tables(spec).items())))
+    elif f["kind"] != "none":
         parts.append("fault=%s col=%s chunk=%d/%d" % (f["kind"], f["col"], f["chunk"], nchunks(spec)))
     if spec["empty_centre"]:
         parts.append("a centre without any object")
